@@ -37,9 +37,9 @@ fn dyn_vs_static<S: Sc>(kind: Kind, items: usize) {
 
 type CRhs<S> = Box<dyn FnMut(S, &[Complex<S>], &mut ()) -> Result<BVector<Complex<S>, Const<1>>, UserError>>;
 
-fn complex_run<S: Sc, Slv>(c: &Conf<S>, z0: Complex<S>, lam: Complex<S>, items: usize) -> Vec<(S, Complex<S>)>
+fn complex_run<'a, S: Sc, Slv>(c: &Conf<S>, z0: Complex<S>, lam: Complex<S>, items: usize) -> Vec<(S, Complex<S>)>
 where
-    Slv: for<'a> IVPSolver<'a, Const<1>, Field = Complex<S>, RealField = S, UserData = (), Error = IVPError, Derivative = CRhs<S>>,
+    Slv: IVPSolver<'a, Const<1>, Field = Complex<S>, RealField = S, UserData = (), Error = IVPError, Derivative = CRhs<S>>,
 {
     let f: CRhs<S> = Box::new(move |_t: S, y: &[Complex<S>], _d: &mut ()| Ok(BVector::<Complex<S>, Const<1>>::from_element_generic(Const::<1>, U1, lam * y[0])));
     let built = (|| -> Result<_, IVPError> {
@@ -127,7 +127,9 @@ pub fn run(pr: &mut PropRun, t: &Tier) {
     pr.funcs(&["ivp::Euler, ivp::rk::RungeKutta{23,45}, ivp::adams::Adams3, ivp::bdf::BDF2 at Dyn and Const<2>", "ivp::Euler and RungeKutta23 at N = Complex<Sym>"]);
     pr.bound("dynamic vs static dimension: identical configuration (all symbolic) and arbitrary right-hand side, first 2 points, Euler / RK23 / RK45 / Adams3; complex vs equivalent real 2x2 system on y' = lambda*y (complex lambda, start, configuration symbolic), first 2 points of Euler and first point of RK23; Euler's first-order global bound on y' = lambda*y for 4 steps");
     pr.outside("tolerance ladders over long intervals, dimension 3-4, the problem-dependent constants for non-linear problems, adaptive solvers' global error (a consequence of C02 for short prefixes only)");
-    for kind in [Kind::Euler, Kind::RK23, Kind::RK45, Kind::Adams3] {
+    // (Runge-Kutta with a two-component arbitrary right-hand side: Euclidean norms under a fourth root, measured
+    //  4-5 minutes per harness: thorough tier only)
+    for kind in (if t.thorough { vec![Kind::Euler, Kind::RK23, Kind::RK45, Kind::Adams3] } else { vec![Kind::Euler, Kind::Adams3] }) {
         let mut cfg = t.cfg(&format!("C04:dyn-vs-static({})", kind.name()));
         cfg.max_decisions = 120;
         cfg.max_paths = 400;
@@ -137,11 +139,13 @@ pub fn run(pr: &mut PropRun, t: &Tier) {
     let mut cfg = t.cfg("C04:complex-vs-real(Euler)");
     cfg.max_decisions = 100;
     run_h!(pr, cfg, complex_vs_real, Kind::Euler, 3);
-    let mut cfg = t.cfg("C04:complex-vs-real(RK23)");
-    cfg.max_decisions = 60;
-    cfg.max_paths = 200;
-    cfg.feas_timeout_s = 3.0;
-    cfg.query_timeout_s = if t.thorough { 120.0 } else { 20.0 };
-    run_h!(pr, cfg, complex_vs_real, Kind::RK23, 1);
+    if t.thorough {
+        let mut cfg = t.cfg("C04:complex-vs-real(RK23)");
+        cfg.max_decisions = 60;
+        cfg.max_paths = 200;
+        cfg.feas_timeout_s = 10.0;
+        cfg.query_timeout_s = 120.0;
+        run_h!(pr, cfg, complex_vs_real, Kind::RK23, 1);
+    }
     run_h!(pr, t.cfg("C04:euler-first-order(4 steps)"), euler_first_order, 4);
 }
